@@ -417,15 +417,15 @@ func (r *c04AlignRun) swap32() {
 	now := func() uint32 { return uint32(time.Now().Unix() / 60) }
 	// the rule: hold the target direction of connection 0 back until the unit that carries the chunk
 	// and the unit after it are complete; then emit `nonce0 + (seals before that payload)`, the payload's
-	// ciphertext + tag, and everything that follows the unit (its end padding is cut)
+	// ciphertext + tag (its end padding is cut) and the next unit's metadata ciphertext + tag
 	tap.rule = func(t *c04Tap, d *c04TapDir, b []byte) []byte {
 		if d.conn != 0 || d.c2s != c2s {
 			return b
 		}
 		if d.fired {
-			out := d.raw[d.cursor:]
-			d.cursor = len(d.raw)
-			return append([]byte(nil), out...)
+			// everything after the next unit's metadata stays withheld: the receiver waits for bytes
+			// instead of failing on the next open, so the delivery below is not raced by a teardown
+			return nil
 		}
 		if r.chunk == nil {
 			return nil
@@ -436,7 +436,7 @@ func (r *c04AlignRun) swap32() {
 				ks := d.sealsBefore(i) + 1
 				out := append([]byte(nil), addToNonce(d.units[0].Raw[:24], ks)...)
 				out = append(out, u.Raw[l["payload-ct"].lo:l["payload-tag"].hi]...)
-				out = append(out, d.raw[d.ends[i]:]...)
+				out = append(out, d.raw[d.ends[i]:d.ends[i]+48]...) // the next unit's metadata ciphertext + tag
 				d.cursor = len(d.raw)
 				d.fired = true
 				r.applied = true
